@@ -139,41 +139,51 @@ fn exported_x(env: &ShellEnvironment) -> (u8, u8) {
     (n, tag)
 }
 
-fn temp_assign(in_fn_with_local: bool) {
+fn temp_assign(in_fn_with_local: bool, check_exports: bool) {
     let mut env = ShellEnvironment::new();
     let gx_exported: bool = kani::any();
     let r = env.add("x", var(1, false, gx_exported), EnvironmentScope::Global); std::mem::forget(r);
     if in_fn_with_local { env.push_scope(EnvironmentScope::Local); let r = env.add("x", var(2, false, false), EnvironmentScope::Local); std::mem::forget(r); }
     let before = seen(&env, "x");
     let before_writes = env.get("x").map(|(_, v)| v.writes);
-    let (n0, tag0) = exported_x(&env);
+    let (n0, tag0) = if check_exports { exported_x(&env) } else { (0, 0) };
     env.push_scope(EnvironmentScope::Command);
     let mut tv = var(3, false, false); tv.export();
     let r = env.add("x", tv, EnvironmentScope::Command); assert!(r.is_ok(), "C09.temp.add_in_command_scope_ok"); std::mem::forget(r);
     assert!(seen(&env, "x") == Some((EnvironmentScope::Command, 3)), "C09.temp.command_sees_temporary_value");
-    // exactly one exported binding of x is visible: the temporary one
-    let (n, tag) = exported_x(&env);
-    assert!(n == 1 && tag == 3, "C09.temp.child_env_gets_temporary_value_once");
+    if check_exports {
+        // exactly one exported binding of x is visible: the temporary one
+        let (n, tag) = exported_x(&env);
+        assert!(n == 1 && tag == 3, "C09.temp.child_env_gets_temporary_value_once");
+    }
     let r = env.pop_scope(EnvironmentScope::Command);
     assert!(r.is_ok(), "C09.temp.pop_command_scope_ok"); std::mem::forget(r);
     assert!(seen(&env, "x") == before, "C09.temp.undone_afterwards");
     assert!(env.get("x").map(|(_, v)| v.writes) == before_writes, "C09.temp.shadowed_binding_untouched");
-    let (n, tag) = exported_x(&env);
-    assert!(n == n0 && tag == tag0, "C09.temp.exports_as_before");
-    if !in_fn_with_local { assert!(n == gx_exported as u8 && (n == 0 || tag == 1), "C09.temp.global_export_as_flagged"); }
+    assert!(env.get("x").map(|(_, v)| v.exported) == Some(if in_fn_with_local { false } else { gx_exported }), "C09.temp.export_flag_of_the_restored_binding_untouched");
+    if check_exports {
+        let (n, tag) = exported_x(&env);
+        assert!(n == n0 && tag == tag0, "C09.temp.exports_as_before");
+        if !in_fn_with_local { assert!(n == gx_exported as u8 && (n == 0 || tag == 1), "C09.temp.global_export_as_flagged"); }
+    }
     kani::cover!(gx_exported, "exported_global");
     std::mem::forget(env);
 }
 
-//@proof {'props': ['C09'], 'tier': 'quick', 'timeout': 900, 'uses': ['env_file'], 'bounds': 'global x (exported? symbolic); temporary-assignment scope (push Command) with exported x=v; pop Command', 'desc': '`x=v cmd` at top level: the Command-scope binding is what cmd sees and the only x exported during cmd; after the pop the previous binding (tag, scope, export flag, zero writes) is back'}
+//@proof {'props': ['C09'], 'tier': 'quick', 'timeout': 900, 'uses': ['env_file'], 'bounds': 'global x (exported? symbolic); temporary-assignment scope (push Command) with exported x=v; pop Command', 'desc': '`x=v cmd` at top level: the Command-scope binding is what cmd sees; after the pop the previous binding (tag, scope, export flag, zero writes) is back'}
 #[kani::proof]
 #[kani::unwind(5)]
-fn vk_c09_temporary_assignment_toplevel() { temp_assign(false); }
+fn vk_c09_temporary_assignment_toplevel() { temp_assign(false, false); }
 
 //@proof {'props': ['C09'], 'tier': 'quick', 'timeout': 900, 'uses': ['env_file'], 'bounds': 'global x (exported? symbolic) shadowed by a function local x; temporary-assignment scope on top', 'desc': '`x=v cmd` inside a function that has a local x: same contract; the local is what reappears'}
 #[kani::proof]
 #[kani::unwind(5)]
-fn vk_c09_temporary_assignment_in_function() { temp_assign(true); }
+fn vk_c09_temporary_assignment_in_function() { temp_assign(true, false); }
+
+//@proof {'props': ['C09'], 'tier': 'thorough', 'timeout': 2400, 'uses': ['env_file'], 'bounds': 'as vk_c09_temporary_assignment_toplevel, plus the exported set before / during / after', 'desc': '`x=v cmd`: during cmd exactly one exported x is visible (the temporary one); afterwards the exported set is what it was'}
+#[kani::proof]
+#[kani::unwind(5)]
+fn vk_c09_temporary_assignment_exports() { temp_assign(false, true); }
 
 //@proof {'props': ['C09', 'C18'], 'tier': 'quick', 'timeout': 600, 'uses': ['env_file'], 'bounds': 'scope stack Global [+ Local]; pop with a symbolic expected kind', 'desc': 'pop_scope with the wrong expected kind is an error; with the right kind it succeeds; popping the last (global) scope and then once more reports a missing scope'}
 #[kani::proof]
